@@ -49,6 +49,7 @@ type idprespSess struct {
 	Subj    bool     `json:"subj"`
 	Content string   `json:"content"`
 	Nid     string   `json:"nid"` // "empty": the session has no name identifier
+	Exp     string   `json:"exp"` // "soon": the session ends 30 s after the IdP clock
 }
 type idprespIn struct {
 	Kind    string       `json:"kind"`
@@ -218,6 +219,9 @@ func idprespSession(sh idprespSess, label string, rng *rand.Rand) (*saml.Session
 	}
 	s := &saml.Session{ID: label + "-sid", Index: label + "-sidx", NameID: refs["NameID"],
 		CreateTime: time.Date(2024, 3, 10, 9, 0, 0, 0, time.UTC), ExpireTime: time.Date(2034, 3, 10, 9, 0, 0, 0, time.UTC)}
+	if sh.Exp == "soon" {
+		s.CreateTime, s.ExpireTime = saml.TimeNow().Add(-time.Hour+30*time.Second), saml.TimeNow().Add(30*time.Second)
+	}
 	set := func(ref string, dst *string, val string) {
 		if has[ref] {
 			*dst = d(val)
